@@ -5,4 +5,12 @@ CLAIMS = {
    technique="TLA+ spec RegionName (tuple order + transcription of Compare) model-checked with TLC on all pairs of a small scope; TLC-sorted scope replayed into region.Compare; random observed pairs trace-validated by TLC",
    text="TLC proves on every pair (and every triple of a sub-scope) of the scope that the transcribed algorithm has the sign of the (table,start,id) tuple order; the real region.Compare is then checked on all ordered pairs of the TLC-sorted scope (775 names incl. search keys) and on seeded random well-formed names whose observed sign TLC validates against TupleCmp. Exhaustive small scope is the right level for a pure comparison function whose interesting cases are the bytes around ','.",
    note="assumes well-formed names (table and id without ','); scope constants in spec/MC_RegionName.tla; TLC and the Json community module are trusted"),
+ "C08": dict(level="model_checking",
+   technique="TLA+ spec RegionCache (abstract interval semantics + transcription of the B-tree overlap walk and lookup) model-checked with TLC; every step of the real keyRegionCache over all reachable states of the scope and over random walks is trace-validated by TLC (Trace_RegionCache)",
+   text="TLC explores every cache reachable by puts/removals over the scope and checks NoOverlap, NewestWins, RejectedPutIsNoop, EvictedAreDead and that the transcribed B-tree walk finds exactly the overlapping set. The real cache is then driven breadth-first through every reachable state of that scope (every put and del from every state) and through seeded random walks over arbitrary byte keys with >100 regions; each step's (overlaps, replaced, full contents, dead flags) must equal the specification's, with the invariants evaluated in every state.",
+   note="region names unique ((table,start,id) determines stop); ids < 2^31 in the harness; TLC + Json module trusted"),
+ "C10": dict(level="model_checking",
+   technique="TLA+ spec KeyValue (byte layout + Denotes + transcriptions of both mutation encoders) model-checked with TLC over all mutation shapes; TLC-generated shapes, byte vectors and boundary-length vectors replayed into the real encoders/decoder and an independent decoder",
+   text="TLC checks CellblockCells = ProtoCells = Denotes for all 852 mutation shapes; the same shapes (with the cell sets computed by the specification), 1701 KeyValue byte vectors and 315 boundary-length vectors are replayed into hrpc: real cellblock bytes, associated cell count, the client's own decoder, an independent decoder and the protobuf form under HBase's proto->cell rule must all give the specification's cells and byte counts.",
+   note="HBase's server-side proto->cell rule is transcribed (not executed); contents at boundary sizes are seeded samples"),
 }
